@@ -81,6 +81,11 @@ func buildersStore(c *Ctx, pkg string) {
 			if !good && got.Op == "app" && strings.HasPrefix(got.Aux, "conv:") && got.Args[0] == arg {
 				good = true // unsigned → signed conversion of a count
 			}
+			// a duration that only ever arms a timer (the time limit, the hedge delay) may be clamped at zero: the runtime
+			// treats every non-positive duration alike
+			if !good && (r.canonical == "timeLimit" || (pkg == "hedgepolicy" && r.canonical == "delayFunc")) && sameDelay(got, arg) {
+				good = true
+			}
 			if !good {
 				ok = false
 				c.Fail(r.fn+"#"+r.canonical, c.P.FuncPos(fn), fmt.Sprintf("%s must store its argument %s unchanged as %s (found %s)", fn.Name(), arg, r.canonical, got), pathTrace(ev, p))
